@@ -35,7 +35,7 @@ def worker(i):
     sh(f'cp {V}/known_findings.json {scratch}/; ln -sfn {V}/engine {scratch}/engine')
     if not os.path.isdir(wt):
         sh(f'git -C /repo worktree add --detach {wt} {head}')
-    sh(f'git checkout -q --detach {head} && git checkout -- . && git clean -fdq', cwd=wt)
+    sh(f'git reset -q --hard HEAD; git clean -fdq; git checkout -q --detach {head}', cwd=wt)
     while True:
         try:
             d = q.get_nowait()
@@ -44,11 +44,11 @@ def worker(i):
         name = os.path.basename(d.rstrip('/'))
         r = sh(f'git apply --3way {d}/patch.diff && git reset -q', cwd=wt)
         if r.returncode != 0:
-            sh('git checkout -- . && git clean -fdq', cwd=wt)
+            sh('git reset -q --hard HEAD && git clean -fdq', cwd=wt)
             with lock: rows[name] = ('APPLY-FAILED', [])
             continue
         out = sh(f'{V}/engine/junocheck -prop {props} -repo {wt} -verif {scratch}').stdout
-        sh('git checkout -- . && git clean -fdq', cwd=wt)
+        sh('git reset -q --hard HEAD && git clean -fdq', cwd=wt)
         broken = re.findall(r'^(BROKEN\S*|VACUOUS) .*', out, re.M)
         mp = f'{d}/meta.json'
         if kind == 'seeded':
